@@ -12,6 +12,7 @@ import (
 	"fmt"
 	"io"
 	"net"
+	"os"
 	"sync"
 	"time"
 )
@@ -91,6 +92,50 @@ type Conn struct {
 	failed            bool
 	clientWriting     bool // the client is delivering one logical write in several segments (TLS records)
 	idleHeld          bool
+
+	// deadlines set by the server are honoured against a clock the harness can move forward (Elapse)
+	rdl, wdl time.Time
+	skew     time.Duration
+}
+
+// timeoutErr is what Read and Write return past their deadline (a net.Error with Timeout() true)
+type timeoutErr struct{}
+
+func (timeoutErr) Error() string   { return "mem: i/o timeout" }
+func (timeoutErr) Timeout() bool   { return true }
+func (timeoutErr) Temporary() bool { return true }
+func (timeoutErr) Is(target error) bool {
+	return target == os.ErrDeadlineExceeded
+}
+
+func (c *Conn) past(dl time.Time) bool { return !dl.IsZero() && time.Now().Add(c.skew).After(dl) }
+
+// Elapse lets time pass for this connection: every deadline armed on it is that much closer (or gone by).
+func (c *Conn) Elapse(d time.Duration) {
+	l := c.log
+	l.mu.Lock()
+	c.skew += d
+	l.cond.Broadcast()
+	l.mu.Unlock()
+}
+
+func (c *Conn) setDeadline(r, w bool, t time.Time) error {
+	l := c.log
+	l.mu.Lock()
+	if r {
+		c.rdl = t
+	}
+	if w {
+		c.wdl = t
+	}
+	l.cond.Broadcast()
+	l.mu.Unlock()
+	if !t.IsZero() {
+		if d := time.Until(t); d > 0 && d < time.Minute {
+			time.AfterFunc(d+time.Millisecond, func() { l.mu.Lock(); l.cond.Broadcast(); l.mu.Unlock() })
+		}
+	}
+	return nil
 }
 
 func NewConn(id int, log *Log) *Conn {
@@ -106,6 +151,9 @@ func (c *Conn) Read(p []byte) (int, error) {
 	for {
 		if c.serverClosed {
 			return 0, net.ErrClosed
+		}
+		if c.past(c.rdl) {
+			return 0, timeoutErr{}
 		}
 		if c.failed || (c.failReadsAfter >= 0 && c.reads >= c.failReadsAfter) || (c.failAfterBytes >= 0 && c.delivered >= c.failAfterBytes) {
 			c.failed = true // once the transport has failed it fails in both directions
@@ -165,6 +213,9 @@ func (c *Conn) Write(p []byte) (int, error) {
 	if c.serverClosed {
 		return 0, net.ErrClosed
 	}
+	if c.past(c.wdl) {
+		return 0, timeoutErr{}
+	}
 	if c.failed || (c.failWritesAfter >= 0 && c.writes >= c.failWritesAfter) {
 		c.failed = true
 		c.writes++
@@ -197,9 +248,9 @@ func (c *Conn) Close() error {
 
 func (c *Conn) LocalAddr() net.Addr                { return Addr{0} }
 func (c *Conn) RemoteAddr() net.Addr               { return Addr{c.ID} }
-func (c *Conn) SetDeadline(t time.Time) error      { return nil }
-func (c *Conn) SetReadDeadline(t time.Time) error  { return nil }
-func (c *Conn) SetWriteDeadline(t time.Time) error { return nil }
+func (c *Conn) SetDeadline(t time.Time) error      { return c.setDeadline(true, true, t) }
+func (c *Conn) SetReadDeadline(t time.Time) error  { return c.setDeadline(true, false, t) }
+func (c *Conn) SetWriteDeadline(t time.Time) error { return c.setDeadline(false, true, t) }
 
 // ---- client side ----
 
